@@ -2117,3 +2117,27 @@ mod tests {
         }
     }
 }
+
+#[cfg(enet4_dicom_rs_verif)]
+impl<'a> ClientAssociationOptions<'a> {
+    /// Construct the A-ASSOCIATE-RQ PDU
+    /// (verification hook, same as the private `create_a_associate_req`).
+    pub fn create_a_associate_req_for_verif(
+        &'a self,
+        ae_title: Option<&str>,
+    ) -> Result<(Vec<PresentationContextProposed>, Pdu)> {
+        self.create_a_associate_req(ae_title)
+    }
+
+    /// Process the A-ASSOCIATE-AC PDU received from the SCP
+    /// (verification hook, same as the private `process_a_association_resp`
+    /// with the negotiated options converted to a public type).
+    pub fn process_a_association_resp_for_verif(
+        &self,
+        msg: Pdu,
+        presentation_contexts_proposed: &[PresentationContextProposed],
+    ) -> Result<crate::association::NegotiatedOptionsForVerif> {
+        self.process_a_association_resp(msg, presentation_contexts_proposed)
+            .map(Into::into)
+    }
+}
